@@ -5,7 +5,9 @@ Three ingredients (tools/README.md):
   * theorems about the Lean models QV/Model/Linalg.lean (partial_trace both branches,
     partial_transpose, Schmidt reshape, purity-type contractions) and
     QV/Model/ClassicalDist.lean (hamming_*, total variation, Hellinger algebra), plus the
-    kind-validity algebra of the generators (QV/Props/C18c.lean);
+    kind-validity algebra of the generators (QV/Props/C18c.lean, C18d.lean: BCSZ channels are
+    CPTP in both vectorisation orders, Bures / Ginibre states) and the scalar algebra of the
+    measures (QV/Props/C18e.lean), instantiated on the real functions by props/C18_algebra.py;
   * exact correspondence of those models with the REAL qibo functions (DriverC18.lean,
     Gaussian-integer / integer / rational data);
   * direct search on the real code: every public measure against an INDEPENDENT reference
@@ -1576,7 +1578,20 @@ def run(ctx):
         except Exception as e:  # noqa: BLE001  the harness could not digest what the real code did
             ctx.log(traceback.format_exc()[-1800:])
             ctx.ob(f"C18_{suite.__name__}_completed", False, "search", f"{type(e).__name__}: {e}"[:300])
+    # run-time instantiation of the algebra theorems of Props/C18d.lean, C18e.lean on the real functions
+    try:
+        from props import C18_algebra
+        C18_algebra.run_suites(ctx)
+    except Exception as e:  # noqa: BLE001
+        ctx.log(traceback.format_exc()[-1800:])
+        ctx.ob("C18_inst_completed", False, "search", f"{type(e).__name__}: {e}"[:300])
     np.random.set_state(np_state)
+    ctx.notes.append(
+        "theorem instances (C18d/C18e, tools/props/C18_algebra.py): BCSZ channels d=2,4(,8) x row/column x rank None,1,2,d^2 x seeds — hypotheses S Y S = 1, S = S^dagger evaluated on the Gaussian matrix "
+        "regenerated from the seed, model (1 x S) X X^dagger (1 x S) = returned Choi matrix, conclusions PSD / Tr_out = 1 / rank / trace on the returned matrix; Bures / Ginibre / Hilbert-Schmidt density "
+        "matrices d=2..5,8 likewise; F_avg <-> F_pro <-> gate_error relations, Bures distance / angle as functions of the real fidelity (values and strict antitonicity), Meyer-Wallach range from the "
+        "single-qubit purities, entanglement of formation along cos t|0..0> + sin t|1..1> (argument range, end points, monotone in the concurrence, bases 2/e/10), negativity = minus the sum of negative "
+        "eigenvalues, Shannon entropy in [0, log_b n] (uniform / point attain the bounds), Gibbs inequality")
     ctx.notes.append(
         "correspondence (exact, Gaussian integers): partial_trace both branches for every ordered subset of n<=3 qubits, samples + empty/full/descending at n=4,5, "
         "malformed lists; partial_transpose matrices/vectors/batches incl. repeated and out-of-range indices; schmidt_decomposition reconstruction for every ordered partition n<=3; "
